@@ -2336,6 +2336,8 @@ fn param_entries(c: &ParamCase) -> Vec<Entry> {
     ];
     for (i, id) in ids.into_iter().enumerate() {
         if let Some(x) = c.initial[i] {
+            // values inside their RFC 9000 ranges only (stream counts <= 2^60): others are C18's
+            let x = if i >= 4 { x.min(1 << 60) } else { x };
             let (v, b) = varint(x);
             push(id, 0x04 + i as u64, v, b, false, false);
         }
@@ -2345,7 +2347,8 @@ fn param_entries(c: &ParamCase) -> Vec<Entry> {
         push(ParameterId::AckDelayExponent, 0x0a, v, b, false, false);
     }
     if let Some(ms) = c.max_ack_delay_ms {
-        let (v, b) = millis(ms);
+        // RFC 9000 §18.2: values of 2^14 or greater are invalid
+        let (v, b) = millis(ms.min((1 << 14) - 1));
         push(ParameterId::MaxAckDelay, 0x0b, v, b, false, false);
     }
     if c.disable_migration {
